@@ -40,7 +40,7 @@ def ob_inductive(run, interp):
     from rpyc.core.protocol import Connection
     from rpyc.core import consts, netref
     from rpyc.lib import get_id_pack
-    TRANS = ["box-again", "unbox", "proxy-finalizer", "release-handled"]
+    TRANS = ["box-again", "unbox", "proxy-finalizer", "release-handled", "reply-dropped-unread"]
 
     def ob(o):
         o.symbolic = ["owner's count c: Int >= 0; slot present?: Bool", "proxy alive?: Bool; proxy's count p: Int >= 1",
@@ -82,6 +82,23 @@ def ob_inductive(run, interp):
                 if not alive:
                     c.assume(False)
                 out = interp.call(netref.BaseNetref.__del__, (proxy,))
+            elif tr == "reply-dropped-unread":
+                # the reference in flight is the result of an asynchronous request; the reply is delivered and the result
+                # object is then dropped without anybody having read its value
+                from rpyc.core.async_ import AsyncResult
+                c.assume(r >= 1)
+                res = interp.call(AsyncResult, (peer,))
+                peer._request_callbacks[77] = res
+                interp.call(Connection._dispatch, (peer, l2.Frame((consts.MSG_REPLY, 77, (consts.LABEL_REMOTE_REF, idp)))))
+                held = []
+                for k in type(res).__mro__:
+                    for sl in getattr(k, "__slots__", ()):
+                        v = getattr(res, sl, None)
+                        if isinstance(v, netref.BaseNetref) and v is not proxy:
+                            held.append(v)
+                for v in held:                     # dropping the result finalizes a proxy that only the result referred to
+                    interp.call(netref.BaseNetref.__del__, (v,))
+                out = (len(held), 77 in peer._request_callbacks)
             else:
                 if not dels:
                     c.assume(False)
@@ -135,6 +152,18 @@ def ob_inductive(run, interp):
                             # boxed = TUPLE((LOCAL_REF id), (VALUE count))
                             sent = boxed[1][1][1]
                             dels2 = dels + [V.term(sent) if isinstance(sent, Sym) else z3.IntVal(sent)]
+                elif tr == "reply-dropped-unread":
+                    r2 = r - 1
+                    if r_.value[1]:
+                        bad = "the reply was not delivered to its request"
+                    if alive:
+                        cur = object.__getattribute__(n["proxy"], "____refcount__")
+                        p2 = V.term(cur) if isinstance(cur, Sym) else z3.IntVal(cur)
+                    for f in peer._channel.out:
+                        kind, seq, (handler, boxed) = f.obj
+                        if handler == consts.HANDLE_DEL:
+                            sent = boxed[1][1][1]
+                            dels2 = dels2 + [V.term(sent) if isinstance(sent, Sym) else z3.IntVal(sent)]
                 else:
                     dels2 = dels[1:]
                 conds.append(invariant(z3.BoolVal(slot2), cnt2, alive2, p2, r2, dels2))
@@ -152,6 +181,10 @@ def ob_inductive(run, interp):
             if bad and len(o.violations) < 3:
                 sig = "inductive:%s" % tr
                 if any(v["signature"] == sig for v in o.violations):
+                    return
+                if tr == "reply-dropped-unread":
+                    run.replay(o, sig, bad, HISTORY_RUNNER + REPLAY_DROPPED)
+                    l2.retire(owner, peer)
                     return
                 run.replay(o, sig, bad, HISTORY_RUNNER + '''
 bad = []
@@ -183,7 +216,34 @@ if bad:
     return ob
 
 
+REPLAY_DROPPED = '''
+# an object travels as the reply to an asynchronous request; the peer's AsyncResult receives it and is dropped unread
+from rpyc.core.async_ import AsyncResult
+ca, cb = QChan(), QChan()
+A = Connection(VoidService(), ca); B = Connection(VoidService(), cb)
+obj = Lent(); wr = weakref.ref(obj)
+bad = []
+for alive_before in (False, True):
+    keep = B._unbox(A._box(obj)) if alive_before else None      # optionally the peer already holds a proxy
+    res = AsyncResult(B); B._request_callbacks[77] = res
+    frame = brine.dump((consts.MSG_REPLY, 77, A._box(obj)))          # the owner's reply: one more count at the owner
+    B._dispatch(frame)                                                # delivered to the waiting result ...
+    del res; gc.collect()                                             # ... which nobody ever reads
+    keep = None; gc.collect()                                         # and the peer drops everything else it holds
+    while cb.q:
+        A._dispatch(cb.q.pop(0)[1])                                   # the owner processes every release notice
+    idp = rpyc.lib.get_id_pack(obj)
+    if idp in A._local_objects._dict:
+        bad.append("the peer holds nothing and every release notice was processed, yet the owner still references the object (count %r)" % (A._local_objects._dict[idp][1],))
+    A._local_objects.clear()
+print(bad)
+if bad:
+    print("REPRODUCED"); sys.exit(1)
+'''
+
+
 HISTORY_RUNNER = '''
+import rpyc.lib
 import sys, gc, weakref, itertools
 sys.path.insert(0, __import__("os").environ.get("VERIF_REPO", "/repo"))
 from rpyc.core.protocol import Connection
